@@ -32,6 +32,10 @@ type Case struct {
 	NAct       int    `json:"activators"`
 	Revoke     bool   `json:"revoke"`
 	SecondNode bool   `json:"second_node"` // the last activator goes through another node's service stack
+	// SameClient: every activation comes from the SAME listen client (double submit / retry after a timeout),
+	// at different listen addresses; the revoker uses that identity too. Revoke2: a second, identical revoke.
+	SameClient bool   `json:"same_client,omitempty"`
+	Revoke2    bool   `json:"revoke_twice,omitempty"`
 	Cluster    bool   `json:"cluster"`     // two nodes, each with its own hybrid store + node-local cache over one shared cache tier
 	Gran       string `json:"granularity"` // which tier operations are scheduling points: code | shared | all
 	QuotaFull  int    `json:"quota_full"`  // index of an activator whose listen client is already at its mapping quota (-1 none)
@@ -45,6 +49,7 @@ type Case struct {
 	// claim | idmark | mapping | index | code
 	ExpirePoint string `json:"expire_point,omitempty"`
 	Steps       []Step `json:"steps,omitempty"`
+	Rounds      int    `json:"rounds,omitempty"` // contention mode: how often a replay re-runs the round parameters
 	MaxMap      int    `json:"max_mappings,omitempty"`
 }
 
@@ -210,6 +215,7 @@ func runConcurrent(c Case, choose func(int, []string) int) outcome {
 	// ---- concurrent phase --------------------------------------------------------
 	acts := make([]*actRes, c.NAct)
 	var revErr error
+	rev2Err := errors.New("not run")
 	var expired atomic.Bool
 	if c.ExpirePoint != "" {
 		w.pre = func(op, key string) {
@@ -233,6 +239,9 @@ func runConcurrent(c Case, choose func(int, []string) int) outcome {
 	for i := 0; i < c.NAct; i++ {
 		i := i
 		a := &actRes{listen: listenBase + int64(i), addr: fmt.Sprintf("0.0.0.0:%d", 9001+i), read: -1, firstWrite: -1}
+		if c.SameClient {
+			a.listen = listenBase
+		}
 		acts[i] = a
 		n := w.nodes[0]
 		if c.SecondNode && i == c.NAct-1 {
@@ -248,7 +257,15 @@ func runConcurrent(c Case, choose func(int, []string) int) outcome {
 	revRead, revWrite := -1, -1
 	if c.Revoke {
 		revErr = errors.New("not run")
-		w.g.Go("R", func() { revErr = w.nodes[0].cc.RevokeConnectionCode(code.Code, "verif") })
+		by := "verif"
+		if c.SameClient {
+			by = fmt.Sprint(listenBase) // the revoker is the same identity as the activating client
+		}
+		w.g.Go("R", func() { revErr = w.nodes[0].cc.RevokeConnectionCode(code.Code, by) })
+		if c.Revoke2 {
+			n2 := w.nodes[len(w.nodes)-1]
+			w.g.Go("R2", func() { rev2Err = n2.cc.RevokeConnectionCode(code.Code, by) })
+		}
 	}
 	o.log = w.g.Run(choose)
 	w.g.Deactivate()
@@ -264,7 +281,7 @@ func runConcurrent(c Case, choose func(int, []string) int) outcome {
 	codeKey := "tunnox:runtime:conncode:code:" + code.Code
 	for i, s := range o.log {
 		isCodeRec := s.Key == codeKey || strings.HasPrefix(s.Key, "tunnox:runtime:conncode:id:")
-		if s.Task == "R" {
+		if s.Task == "R" || s.Task == "R2" {
 			if s.Key == codeKey && strings.HasSuffix(s.Op, ".Get") && revRead < 0 {
 				revRead = i
 			}
@@ -314,7 +331,7 @@ func runConcurrent(c Case, choose func(int, []string) int) outcome {
 		}
 	}
 	o.successes = len(winners)
-	o.revokeOK = c.Revoke && revErr == nil
+	o.revokeOK = c.Revoke && (revErr == nil || (c.Revoke2 && rev2Err == nil))
 	for i := range acts {
 		for j := i + 1; j < len(acts); j++ {
 			if bothReadFirst(acts[i].read, acts[i].firstWrite, acts[j].read, acts[j].firstWrite) {
@@ -350,6 +367,12 @@ func runConcurrent(c Case, choose func(int, []string) int) outcome {
 	if c.Revoke {
 		prog += "+R"
 	}
+	if c.Revoke2 {
+		prog += "+R"
+	}
+	if c.SameClient {
+		prog += "/same-client"
+	}
 	if c.Cluster {
 		prog += "/cluster"
 	} else if c.SecondNode {
@@ -376,6 +399,9 @@ func runConcurrent(c Case, choose func(int, []string) int) outcome {
 	}
 	if c.Revoke {
 		outcomes += "R=" + errCode(revErr)
+		if c.Revoke2 {
+			outcomes += " R2=" + errCode(rev2Err)
+		}
 	}
 	faultSfx := ""
 	if o.failedOp != "" {
@@ -419,12 +445,12 @@ func runConcurrent(c Case, choose func(int, []string) int) outcome {
 		return o
 	}
 	// 3. mappings in storage == successes; each failed activation leaves nothing
-	byListen := map[int64][]*models.PortMapping{}
+	byAddr := map[string][]*models.PortMapping{} // every activator listens at its own address
 	for _, m := range mine {
-		byListen[m.ListenClientID] = append(byListen[m.ListenClientID], m)
+		byAddr[m.ListenAddress] = append(byAddr[m.ListenAddress], m)
 	}
 	for i, a := range acts {
-		ms := byListen[a.listen]
+		ms := byAddr[a.addr]
 		if a.err != nil || a.mapping == nil {
 			cause := "no-fault/" + errCode(a.err)
 			if o.failedOp != "" {
@@ -436,7 +462,7 @@ func runConcurrent(c Case, choose func(int, []string) int) outcome {
 			if rollbackFault(cause) {
 				// the failing write was one of the rollback's own writes: what it could not remove is not
 				// attributed to the activation logic (counted, rest of the case abandoned)
-				if len(ms) > 0 || len(w.indexEntries(a.listen)) > 0 {
+				if len(ms) > 0 || len(w.indexEntriesFor(a.listen, a.addr)) > 0 {
 					vkit.Excluded(1)
 					vkit.Class("excluded:failing write was a rollback write")
 					return o
@@ -447,7 +473,7 @@ func runConcurrent(c Case, choose func(int, []string) int) outcome {
 				fail("C06/failed-activation-leaves-mapping/"+cause, fmt.Sprintf("activation A%d failed (%v) but mapping %s (listen %d -> %d %s) is in storage", i+1, a.err, ms[0].ID, ms[0].ListenClientID, ms[0].TargetClientID, ms[0].TargetAddress))
 				return o
 			}
-			idx := w.indexEntries(a.listen)
+			idx := w.indexEntriesFor(a.listen, a.addr)
 			extra := 0
 			for _, id := range idx {
 				if !pre[id] {
@@ -549,7 +575,7 @@ func recStr(c *models.TunnelConnectionCode) string {
 }
 
 func sigOf(c Case, o outcome) string {
-	return fmt.Sprintf("%d|%v|%v|%v|%s|%d|%s|%s", c.NAct, c.Revoke, c.SecondNode, c.Cluster, c.Gran, c.QuotaFull, o.failedOp, normSteps(o.log))
+	return fmt.Sprintf("%d|%v%v|%v|%v|%v|%s|%d|%s|%s|%s", c.NAct, c.Revoke, c.Revoke2, c.SameClient, c.SecondNode, c.Cluster, c.Gran, c.QuotaFull, o.failedOp, c.ExpirePoint, normSteps(o.log))
 }
 
 func report(t vkit.TB, c Case, o outcome) {
@@ -682,6 +708,8 @@ func spaces() []space {
 		return Case{Mode: "concurrent", NAct: n, Revoke: rev, SecondNode: second, Gran: gran, QuotaFull: quota, FailAt: -1}
 	}
 	cl := func(c Case) Case { c.Cluster = true; return c }
+	sc := func(c Case) Case { c.SameClient = true; return c }
+	r2 := func(c Case) Case { c.Revoke2 = true; return c }
 	return []space{
 		// code-record granularity: 3 scheduling points per task
 		{mk(2, false, false, "code", -1), 1, 1 << 30, false},              // 20 schedules
@@ -690,6 +718,15 @@ func spaces() []space {
 		{mk(3, false, true, "code", -1), 2, 1 << 30, false},               // 1680
 		{mk(2, false, false, "code", 0), 1, 1 << 30, false},               // quota-full activator races a valid one
 		{mk(3, true, false, "code", -1), 3, vkit.Pick(400, 60000), false}, // 369600: capped
+		// the same client submits the activation twice (and revokes with the same identity)
+		{sc(mk(2, false, false, "code", -1)), 1, 1 << 30, false},
+		{sc(mk(2, true, false, "code", -1)), 2, 1 << 30, false},
+		{sc(cl(mk(2, false, false, "code", -1))), 1, 1 << 30, false},
+		{sc(cl(mk(2, true, false, "code", -1))), 2, 1 << 30, false},
+		{sc(mk(3, false, true, "code", -1)), 2, 1 << 30, false},
+		{r2(sc(mk(1, true, false, "code", -1))), 2, 1 << 30, false},
+		{r2(cl(mk(2, true, false, "code", -1))), 3, vkit.Pick(600, 1<<30), false},
+		{sc(mk(2, false, false, "shared", -1)), 4, vkit.Pick(300, 1<<30), false},
 		// cluster topology (own hybrid store + node-local cache per node, one shared tier): the racing calls run on different nodes
 		{cl(mk(2, false, false, "code", -1)), 1, 1 << 30, false},
 		{cl(mk(1, true, false, "code", -1)), 1, 1 << 30, false}, // revoke on node 1, activation on node 2
@@ -712,6 +749,12 @@ func TestExhaustive(t *testing.T) {
 		name := fmt.Sprintf("%dA", s.c.NAct)
 		if s.c.Revoke {
 			name += "+R"
+		}
+		if s.c.Revoke2 {
+			name += "+R"
+		}
+		if s.c.SameClient {
+			name += "/same-client"
 		}
 		if s.c.Cluster {
 			name += "/cluster"
@@ -824,10 +867,15 @@ func TestRandomSchedules(t *testing.T) {
 			Revoke:     rapid.Bool().Draw(t, "revoke"),
 			SecondNode: rapid.Bool().Draw(t, "secondNode"),
 			Cluster:    rapid.SampledFrom([]bool{false, true, true}).Draw(t, "cluster"),
+			SameClient: rapid.SampledFrom([]bool{false, false, true}).Draw(t, "sameClient"),
 			Gran:       rapid.SampledFrom([]string{"code", "shared", "shared", "all"}).Draw(t, "gran"),
 			QuotaFull:  rapid.SampledFrom([]int{-1, -1, -1, 0, 1}).Draw(t, "quotaFull"),
 			FailAt:     rapid.SampledFrom([]int{-1, -1, 0, 1, 2, 3, 4, 5, 6, 7, 8, 9, 10, 11, 12, 13, 14, 15, 16, 18, 20, 24}).Draw(t, "failAt"),
 		}
+		if c.SameClient {
+			c.QuotaFull = -1
+		}
+		c.Revoke2 = c.Revoke && rapid.IntRange(0, 3).Draw(t, "revokeTwice") == 0
 		if rapid.IntRange(0, 3).Draw(t, "tierFaultInsteadOfFacadeFault") == 0 {
 			c.FailAt, c.TierFail = -1, rapid.IntRange(1, 8).Draw(t, "tierFail")
 		}
@@ -853,6 +901,12 @@ func TestReplay(t *testing.T) {
 	if c.Mode == "sequential" {
 		for i := 0; i < 3; i++ {
 			runSequential(t, c)
+		}
+		return
+	}
+	if c.Mode == "contention" {
+		for i := 0; i < c.Rounds && !t.Failed(); i++ {
+			roundContention(t, c)
 		}
 		return
 	}
